@@ -951,6 +951,7 @@ where
                 // The candidate is too big to fit in the cache. Reject it.
                 #[cfg(mini_moka_verif)]
                 {
+                    crate::verif::probe("loss.rejected", kh.hash);
                     crate::verif::sp("sync.reject");
                     crate::verif::map_probe(&|| self.cache.try_get_mut(&kh.key).is_locked());
                 }
@@ -1018,6 +1019,8 @@ where
                         })
                     {
                         // And then remove the victim from the deques.
+                        #[cfg(mini_moka_verif)]
+                        crate::verif::probe("loss.victim", vic_elem.hash());
                         Self::handle_remove(deqs, vic_entry, counters);
                     } else {
                         // Could not remove the victim from the cache. Skip this
@@ -1038,6 +1041,7 @@ where
                 // Remove the candidate from the cache (hash map).
                 #[cfg(mini_moka_verif)]
                 {
+                    crate::verif::probe("loss.rejected", kh.hash);
                     crate::verif::sp("sync.reject");
                     crate::verif::map_probe(&|| self.cache.try_get_mut(&kh.key).is_locked());
                 }
@@ -1289,6 +1293,8 @@ where
                 crate::verif::probe("cause.expired_node_pending_remove", 0);
             }
             if let Some((_k, entry)) = maybe_entry {
+                #[cfg(mini_moka_verif)]
+                crate::verif::probe("loss.purged", self.build_hasher.hash_one(&**key));
                 Self::handle_remove_with_deques(deq_name, deq, write_order_deq, entry, counters);
             } else if !self.try_skip_updated_entry(key, info, deq_name, deq, write_order_deq) {
                 break;
@@ -1375,6 +1381,8 @@ where
             });
 
             if let Some((_k, entry)) = maybe_entry {
+                #[cfg(mini_moka_verif)]
+                crate::verif::probe("loss.purged", self.build_hasher.hash_one(&**key));
                 Self::handle_remove(deqs, entry, counters);
             } else if let Some(entry) = self
                 .cache
@@ -1460,6 +1468,8 @@ where
             });
 
             if let Some((_k, entry)) = maybe_entry {
+                #[cfg(mini_moka_verif)]
+                crate::verif::probe("loss.lru_evicted", self.build_hasher.hash_one(&*key));
                 let weight = entry.entry_info().accounted_weight();
                 Self::handle_remove_with_deques(DEQ_NAME, deq, write_order_deq, entry, counters);
                 evicted = evicted.saturating_add(weight as u64);
